@@ -824,6 +824,24 @@ def rule_encode_contents(ctx):
 
 # ------------------------------------------------------------------- W.realfmt
 
+def _blocks_with(fnode):
+    out = []
+
+    def rec(stmts):
+        out.append(stmts)
+        for s_ in stmts:
+            if isinstance(s_, (ast.FunctionDef, ast.ClassDef)):
+                continue
+            for f_ in ('body', 'orelse', 'finalbody'):
+                b_ = getattr(s_, f_, None)
+                if isinstance(b_, list) and b_ and isinstance(b_[0], ast.stmt):
+                    rec(b_)
+            for h_ in getattr(s_, 'handlers', []) or []:
+                rec(h_.body)
+    rec(fnode.body)
+    return out
+
+
 def rule_real_format(ctx):
     """W.realfmt: bit fields of the binary REAL first octet agree between encoder, decoder and X.690 8.5.7."""
     d = ctx.func('codec.ber.decoder.RealPayloadDecoder.valueDecoder')
@@ -894,19 +912,44 @@ def rule_real_format(ctx):
     ctx.ob('W.realfmt', e, 'encoder sets base bits 01 for base 8, 10 for base 16, bit 7 for a negative mantissa',
            bool(base8) and bool(base16) and bool(signb), 'ORed constants: %s' % sorted(ors))
     ctx.ob('W.realfmt', e, 'encoder puts the scale factor into bits 4-3', 'sf << 2' in ors, '')
-    chain = [n for n in walk_own(e.node) if isinstance(n, ast.If) and norm(n.test) == 'n == 1']
+    # table over the exponent length: the statements between `n = len(eo)` and the next loop decide the two low bits
+    from sa import region
     okn = False
-    if len(chain) == 1:
-        arms, orelse = if_chain(chain[0])
-        m = {}
-        for test, body in arms:
-            k = const_int(test.comparators[0])
-            v = [const_int(s_.value) for s_ in body if isinstance(s_, ast.AugAssign) and norm(s_.target) == 'fo']
-            m[k] = v[0] if v else 0
-        ve = [const_int(s_.value) for s_ in orelse if isinstance(s_, ast.AugAssign) and norm(s_.target) == 'fo']
-        pre = any(norm(s_) == 'eo = int2oct(n & 255) + eo' for s_ in orelse)
-        okn = m == {1: 0, 2: 1, 3: 2} and ve == [3] and pre
-    ctx.ob('W.realfmt', e, 'exponent length 1/2/3 -> bits 00/01/10, longer -> 11 + length octet', okn, '')
+    detail = ''
+    blocks = [blk for blk in _blocks_with(e.node) for st_ in blk
+              if isinstance(st_, ast.Assign) and isinstance(st_.value, ast.Call) and call_name(st_.value) == 'len' and isinstance(st_.targets[0], ast.Name)]
+    for blk in blocks:
+        idx = [i for i, st_ in enumerate(blk) if isinstance(st_, ast.Assign) and isinstance(st_.value, ast.Call) and call_name(st_.value) == 'len'
+               and isinstance(st_.targets[0], ast.Name)]
+        for i in idx:
+            nvar = blk[i].targets[0].id
+            src = norm(blk[i].value.args[0])
+            after = []
+            for st_ in blk[i + 1:]:
+                if isinstance(st_, (ast.While, ast.For)):
+                    break
+                after.append(st_)
+            prefixed = {}
+
+            def mark(st_, env, src=src):
+                if isinstance(st_, ast.Assign) and norm(st_.targets[0]) == src and nvar in [x.id for x in ast.walk(st_.value) if isinstance(x, ast.Name)]:
+                    prefixed[env.get(nvar)] = True
+                return None
+            try:
+                tab = {}
+                for nv in range(1, 256):
+                    lab, env = region.walk(after, {nvar: nv, 'fo': 0}, mark)
+                    tab[nv] = (lab, env.get('fo'))
+            except region.Undecided as x:
+                detail = str(x)
+                continue
+            want = dict((nv, (None, {1: 0, 2: 1, 3: 2}.get(nv, 3))) for nv in range(1, 256))
+            if tab == want and set(prefixed) == set(range(4, 256)):
+                okn = True
+            else:
+                badv = [nv for nv in tab if tab[nv] != want[nv]]
+                detail = 'length %s -> %s' % (badv[0], tab[badv[0]]) if badv else 'length octet prepended for %s' % intexpr.fmt_set(set(k for k in prefixed if k is not None))
+    ctx.ob('W.realfmt', e, 'exponent length 1/2/3 -> bits 00/01/10, longer -> 11 + length octet', okn, detail)
     ok = any(isinstance(n, ast.Assign) and norm(n.targets[0]) == 'fo' and const_int(n.value) == 0x80 for n in walk_own(e.node))
     ctx.ob('W.realfmt', e, 'binary encoding announced by bit 8', ok, '')
     # special values
